@@ -2,29 +2,7 @@
 (* TLC-only definitions for Json8259: the alphabets of the bounded input spaces and the generation
    invariant that prints the ACCEPTED strings (token indices) with their denotation. The harness
    enumerates the same space from the printed header and holds Value::parse against the printed set. *)
-EXTENDS Json8259, Json
-
-\* { } [ ] : , " \ 0 1 - . e a u SPACE  true null
-AlphaTok == << <<123>>, <<125>>, <<91>>, <<93>>, <<58>>, <<44>>, <<34>>, <<92>>, <<48>>, <<49>>, <<45>>, <<46>>,
-               <<101>>, <<97>>, <<117>>, <<32>>, W_TRUE, W_NULL >>
-\* + - . 0 1 9 e E
-AlphaNum == << <<43>>, <<45>>, <<46>>, <<48>>, <<49>>, <<57>>, <<101>>, <<69>> >>
-\* { } [ ] , "a": "b": "b" 0 SPACE      (members: keys with their colon as one token, so that two members fit)
-AlphaObj == << <<123>>, <<125>>, <<91>>, <<93>>, <<44>>, <<34, 97, 34, 58>>, <<34, 98, 34, 58>>, <<34, 98, 34>>, <<48>>, <<32>> >>
-\* { } , "a":"b"          (smallest space in which a member can follow a member without a comma)
-AlphaMem == << <<123>>, <<125>>, <<44>>, <<34, 97, 34, 58, 34, 98, 34>> >>
-\* { } , "a":0 "b":0      (member order)
-AlphaOrd == << <<123>>, <<125>>, <<44>>, <<34, 97, 34, 58, 48>>, <<34, 98, 34, 58, 48>> >>
-\* " \ \ud83d \ude00 \u0041 \u+041 \u004 n 0 LF    (escapes as tokens so that surrogate pairs fit; LF = a raw control character)
-AlphaEsc == << <<34>>, <<92>>, <<92, 117, 100, 56, 51, 100>>, <<92, 117, 100, 101, 48, 48>>, <<92, 117, 48, 48, 52, 49>>,
-               <<92, 117, 43, 48, 52, 49>>, <<92, 117, 48, 48, 52>>, <<110>>, <<48>>, <<10>> >>
-\* atoms for the serialiser model: [ ] { } , : and strings / numbers / words exercising every escaping rule
-AlphaSer == << <<91>>, <<93>>, <<123>>, <<125>>, <<44>>, <<58>>,
-               <<34, 92, 117, 48, 48, 48, 48, 92, 110, 47, 34>>,          \* "\u0000\n/"
-               <<34, 92, 34, 92, 92, 92, 117, 48, 48, 49, 102, 34>>,      \* "\"\\\u001f"
-               <<34, 92, 117, 100, 56, 51, 100, 92, 117, 100, 101, 48, 48, 127, 32, 34>>,  \* U+1F600 DEL SPACE
-               <<34, 92, 98, 92, 102, 92, 114, 92, 116, 233, 8232, 34>>,  \* "\b\f\r\t" e-acute U+2028
-               <<45, 48>>, <<49, 101, 45, 55>>, W_FALSE >>
+EXTENDS Json8259, Json, JsonAlphabets
 
 GenHeader == PrintT(ToJson([header |-> TRUE, alphabet |-> Alphabet, maxlen |-> MaxLen]))
 ASSUME GenHeader
@@ -34,5 +12,7 @@ Emit(p) == p.ok => PrintT(ToJson([t |-> toks, v |-> p.v, d |-> p.d, lone |-> p.l
 GenInv == Emit(Parse(txt))
 \* model checking and generation in one pass over the space
 Inv_C13_Gen == LET p == Parse(txt) IN
-               ParserCorrect(txt, p) /\ DepthScanAgrees(txt, p) /\ SerRoundTrip(p) /\ Emit(p)
+               /\ ParserCorrect(txt, p) /\ DepthScanAgrees(txt, p) /\ SerRoundTrip(p)
+               /\ ((p.ok /\ ~p.lone) => IndexLaws(p.v))
+               /\ Emit(p)
 =============================================================================
